@@ -393,6 +393,12 @@ func concHarnessesAll() []concArg {
 			{{K: "GETATTR", H: "root/a"}, {K: "GETATTR", H: "root/c"}, {K: "GETATTR", H: "root/e"}, {K: "GETATTR", H: "root/f"}, {K: "GETATTR", H: "root/g"}}}},
 		{Name: "eviction", DiskSize: 3000, ICacheSz: 6, Setup: []fsx.Op{{K: "CREATE", H: "root", N: "a"}, {K: "CREATE", H: "root", N: "b"}, {K: "CREATE", H: "root", N: "c"}, {K: "MKDIR", H: "root", N: "d"}, {K: "CREATE", H: "root/d", N: "e"}, {K: "CREATE", H: "root/d", N: "f"}}, Clients: [][]fsx.Op{
 			{{K: "GETATTR", H: "root/a"}, {K: "WRITE", H: "root/b", Off: 0, Cnt: 10, Pat: 0x41, Stable: 2}}, {{K: "LOOKUP", H: "root/d", N: "e"}, {K: "GETATTR", H: "root/b"}}, {{K: "RENAME", H: "root/d", N: "f", H2: "root", N2: "c"}, {K: "LOOKUP", H: "root", N: "c"}}}},
+		// a RENAME that is refused after it has taken the source name out in memory (the target "directory" is a file):
+		// nobody may ever see the name missing - neither while the request gives up its locks nor afterwards
+		{Name: "rename-refused-lookup-remove", DiskSize: 3000, Setup: []fsx.Op{{K: "CREATE", H: "root", N: "a"}, {K: "CREATE", H: "root", N: "f"}}, Clients: [][]fsx.Op{
+			{{K: "RENAME", H: "root", N: "a", H2: "root/f", N2: "x"}}, {{K: "LOOKUP", H: "root", N: "a", As: "l"}}, {{K: "REMOVE", H: "root", N: "a"}, {K: "CREATE", H: "root", N: "a", As: "a2"}}}},
+		{Name: "rename-refused-two-dirs", DiskSize: 3000, Setup: []fsx.Op{{K: "MKDIR", H: "root", N: "d"}, {K: "CREATE", H: "root/d", N: "a"}, {K: "CREATE", H: "root", N: "f"}}, Clients: [][]fsx.Op{
+			{{K: "RENAME", H: "root/d", N: "a", H2: "root/f", N2: "x"}, {K: "LOOKUP", H: "root/d", N: "a", As: "l1"}}, {{K: "READDIR", H: "root/d", Cnt: 1 << 20}, {K: "REMOVE", H: "root/d", N: "a"}}}},
 	}
 }
 
